@@ -2,7 +2,10 @@
 
 package flyt
 
-import "context"
+import (
+	"context"
+	"fmt"
+)
 
 // C09 — stop-on-error halts the batch; unprocessed items are never reported as successes.
 
@@ -32,6 +35,16 @@ func c09Exec(m *bMon) func(ctx context.Context, item Result) (Result, error) {
 					m.failThr = tid
 				}
 				m.errTok[k] = &vError{id: 500 + k}
+				switch m.errForm {
+				// the item's own inner timeout / cancelled sub-call while the batch context is alive:
+				// an item failure like any other
+				case 1:
+					m.errTok[k] = fmt.Errorf("inner call: %w", context.DeadlineExceeded)
+					vCover("item-error-wraps-a-context-error")
+				case 2:
+					m.errTok[k] = fmt.Errorf("inner call: %w", context.Canceled)
+					vCover("item-error-wraps-a-context-error")
+				}
 				err = m.errTok[k]
 			} else {
 				m.outTok[k] = &vTok{id: 700 + k}
@@ -47,6 +60,7 @@ func VH_C09_batch() {
 	m := &bMon{}
 	bConfig(m)
 	m.stop = vNondet[bool]("stop")
+	m.errForm = vChoice("errForm", 3) // one form for all failing items of the run
 	b := bNode(m, c09Exec(m))
 	_, err := Run(m.ctx, b, NewSharedStore())
 	if err != nil || m.posts != 1 || len(m.postRes) != m.n {
